@@ -32,6 +32,7 @@ KNOWN_WHAT = {
     "jump-offset-overflow": "if branch / while body > 32767 instructions: 16-bit conditional jump offset overflows silently",
     "large-branch-rejected": "if branch / while body > 32767 instructions is rejected at compile time ('jump is too far')",
     "destructure-rest-far-registers": "`& rest` destructuring loop is emitted without write-back, wrong with > 255 live locals",
+    "params-past-temp-registers": "function with > 240 parameters: parameter k >= 240 lives in register k+16 (allocator skips temporaries 0xF0-0xFF) but argument k arrives in slot k",
 }
 
 
@@ -108,7 +109,13 @@ def run(ctx):
         futs = [ex.submit(oracle.gen_cases, rng.s, lo, min(nprog, lo + step), 7, contexts) for lo in range(0, nprog, step)]
         for f in futs:
             items += f.result()
-    ctx.say("generated %d programs x %d contexts" % (nprog, len(contexts)))
+    # deterministic operand-width-boundary family (every 8-bit / 16-bit form selection of the compiler at b-1, b, b+1)
+    nbound = len(gen.boundary_programs())
+    with cf.ProcessPoolExecutor(jobs) as ex:
+        futs = [ex.submit(oracle.gen_boundary_cases, nprog, lo, lo + 3, contexts) for lo in range(0, nbound, 3)]
+        for f in futs:
+            items += f.result()
+    ctx.say("generated %d programs x %d contexts + %d operand-width-boundary programs x %d contexts" % (nprog, len(contexts), nbound, len(contexts)))
     todo = [it for it in items if it["ref"]["kind"] != "skip"]
     skipped_ref = len(items) - len(todo)
     cases = [("%d.%s" % (it["prog"], it["ctx"]), it["e0"], it["src"]) for it in todo]
@@ -129,7 +136,7 @@ def run(ctx):
     ctx.say("Lang/Sem: %s" % sem_cov)
     sem_bad = {dd["case"] for dd in sem_dis}
     # ---------------------------------------------------------------- (D4) compiler model vs real compile.c/specials.c, word for word
-    comp_cov = compile_stage(ctx, broken, quick, [it for it in todo if it["ctx"] != "top"])
+    comp_cov = compile_stage(ctx, broken, quick, [it for it in todo if it["ctx"] != "top" and not it.get("boundary")])
     lean_cov.update(comp_cov)
     ctx.say("compile correspondence: core %s general %s diffs %s" % (comp_cov.get("comp_core"), comp_cov.get("comp_general"), comp_cov.get("comp_diffs")))
     byprog = {}
@@ -183,7 +190,9 @@ def run(ctx):
             outcome_kinds["X-user"] += 1
         if it0["size"] >= 12 and (r["trace"] or r["kind"] == "X"):
             distinct.add(hashlib.sha256(it0["src"].encode()).hexdigest())
-    # attribute failures
+    # attribute failures (members of the boundary family first: they name the bound that is wrong)
+    failures.sort(key=lambda f: 0 if f[3].get("boundary") else 1)
+    n_boundary_fail = sum(1 for f in failures if f[3].get("boundary"))
     unattributed = 0
     for prog, cname, kind, it, g in failures:
         sigs = oracle.attribute(cname, it["src"])
@@ -203,8 +212,8 @@ def run(ctx):
         reported.add(sig)
         ctx.violation(sig, {"kind": kind, "program": prog, "context": cname, "source": it["src"], "e0": it["e0"],
                             "reference": {"trace": it["ref"]["trace"], "final": oracle.ref_final(it["ref"])}, "observed": g,
-                            "features": it["feats"], "candidate_causes": sigs},
-                      what="generated program %d in context %s: %s" % (prog, cname, kind))
+                            "features": it["feats"], "candidate_causes": sigs, "boundary_family_member": it.get("boundary")},
+                      what="generated program %d in context %s: %s%s" % (prog, cname, kind, (" (operand-width-boundary family: %s)" % it["boundary"]) if it.get("boundary") else ""))
     if broken and not ctx.nviol:
         ctx.violation("broken:" + broken[0][:80], {"kind": "broken-obligation", "broken": broken}, found=False,
                       what="no longer shown to hold: " + "; ".join(broken)[:600])
@@ -221,6 +230,8 @@ def run(ctx):
         "contexts": contexts,
         "ref_disagreements": n_dis, "context_dependences": n_ctxdiff, "limit_compile_errors": n_limit, "skipped_by_reference": skipped_ref,
         "corpus_scenarios": len(corpus), "corpus_failing": corpus_fail,
+        "boundary_programs": nbound, "boundary_cases": sum(1 for it in todo if it.get("boundary")), "boundary_failures": n_boundary_fail,
+        "boundary_members": sorted({it["boundary"] for it in todo if it.get("boundary")}),
         "feature_histogram": dict(sorted(feats.items())),
         "outcome_kinds": outcome_kinds,
         "size_max": max([it["size"] for it in todo] or [0]), "depth_max": max([it["depth"] for it in todo] or [0]),
